@@ -223,6 +223,77 @@ def gen_comment(rng):
     return b"/*" + bytes(rng.choice(b"ab /\n\"{}[]1") for _ in range(rng.randrange(0, 6))) + rng.choice([b"*/", b" */", b"x*/"])
 
 
+def gen_block_body(rng):
+    """a text of the grammar XdlCmt.BlockBody (lean/AslProofs/XdlComment.lean): bytes other than '*', or '*' together with the next byte when
+    that byte is not '/' (so '**' is one unit and '/***/' is not produced); written from the grammar, not by running a filter"""
+    out = b""
+    for _ in range(rng.choice([0, 0, 1, 2, 3, 5, 9])):
+        if rng.random() < 0.4:
+            out += b"*" + bytes([rng.choice(b"* ax\n\"{}[]1,=:\\\x80\xff\t\r")])
+        else:
+            out += bytes([rng.choice(b"/ ax\n\"{}[]1,=:/\\\x80\xff\t\r/")])
+    return out
+
+
+def gen_line_body(rng):
+    return bytes(rng.choice(b"/* ax\"{}[]1,=:\\\x80\xff\t*/") for _ in range(rng.choice([0, 0, 1, 2, 3, 5, 9])))
+
+
+def gen_tokens(rng, depth=0):
+    """token list of a small JSON/XDL value; quoted strings / quoted names are single tokens (no comment is put inside them)"""
+    r = rng.random()
+    if depth >= 3:
+        r *= 0.5
+    if r < 0.2:
+        return [gen_num_lex(rng)]
+    if r < 0.3:
+        return [rng.choice([b"true", b"false", b"null", b"Y", b"N"])]
+    if r < 0.5:
+        return [rng.choice([b'"a"', b'""', b'"/*x*/"', b'"//"', b'"a\\"b"', b'"*/"', b'"\\u0041/"'])]
+    if r < 0.75:
+        toks = [b"["]
+        for i in range(rng.choice([0, 1, 2, 3])):
+            toks += ([rng.choice([b",", b"\n", b", "])] if i else []) + gen_tokens(rng, depth + 1)
+        return toks + [b"]"]
+    toks = ([gen_ident(rng)] if rng.random() < 0.3 else []) + [b"{"]
+    for i in range(rng.choice([0, 1, 2, 3])):
+        key = gen_ident(rng) if rng.random() < 0.5 else rng.choice([b'"k"', b'"a/b"', b'"/*"', b'""'])
+        eq = rng.choice([b"=", b":"]) if key[:1] == b'"' else b"="
+        toks += ([rng.choice([b",", b"\n", b", "])] if i else []) + [key, eq] + gen_tokens(rng, depth + 1)
+    return toks + [b"}"]
+
+
+def gen_comment_pair(rng):
+    """(text with comments, the text block_comment_transparent / line_comment_transparent say it decodes like): comments of the grammar
+    between tokens, before and after the document and INSIDE numbers / identifiers / unquoted names (never inside a quoted token)"""
+    toks = gen_tokens(rng)
+    pieces = []
+    for t in toks:
+        if t[:1] != b'"' and len(t) > 1 and rng.random() < 0.25:
+            k = rng.randrange(1, len(t))
+            pieces += [t[:k], t[k:]]
+        else:
+            pieces.append(t)
+    w, wo = b"", b""
+    for i, t in enumerate([b""] + pieces):
+        w += t
+        wo += t
+        if rng.random() < (0.35 if len(pieces) < 12 else 0.12) or (i == 0 and rng.random() < 0.3):
+            if rng.random() < 0.6:
+                w += b"/*" + gen_block_body(rng) + b"*/"
+            else:
+                nl = rng.choice([b"\n", b"\r"])
+                w += b"//" + gen_line_body(rng) + nl
+                wo += nl
+    return w, wo
+
+
+# texts around the closing rule of block comments (a '*' takes the next byte with it): closed / not closed
+STAR_COMMENTS = [b"[1]/**/", b"[1]/***/", b"[1]/****/", b"[1]/*****/", b"[1]/* **/", b"[1]/* * */", b"[1]/* ***/", b"/***/[1]", b"/****/[1]", b"[1/***/,2]/**/",
+                 b"[1/***/ /**/,2]", b"[1/**/,2]", b"[1,/*/*/2]", b"[1,/*/2]", b"[1,/**//**/2]", b"[1,//**/\n2]", b"[1,/*//*/2]", b"[1/", b"[1/ /", b"[1]/", b"[1]//", b"[1]/*",
+                 b"[1]/**", b"[1]/* */ /", b"{a/*x*/b=1}", b"{ab/**/=1}", b"[12/*x*/3]", b"[1./**/5]", b"[tr/**/ue]", b"[\"a\"/**/]", b"[\"a/**/\"]", b"{\"a\"/**/:1}"]
+
+
 def gen_xdl(rng, depth=0, maxdepth=4):
     """XDL flavoured text: bare identifiers, name=value, Y/N, class names, newline separators, comments"""
     r = rng.random()
@@ -424,6 +495,14 @@ def gen(rng, tier):
         t = ws(rng, 0.2) + gen_xdl(rng, 0, rng.choice([1, 2, 3, 4])) + rng.choice([b"", b"\n", b" ", b" //c", b" //c\n", b"/*c*/"])
         xdocs.append(t)
         cases.append(ops_for(rng, t, allcuts, 10, xdl=True))
+    # XDL comments of the grammar of block_comment_transparent / line_comment_transparent, and the text the theorems say they decode like
+    for i in range(250 * N):
+        w, wo = gen_comment_pair(rng)
+        xdocs.append(w)
+        cases.append(ops_for(rng, w, allcuts, 6, xdl=True) + ["xdec " + hexs(wo), "dec " + hexs(w)])
+    for t in STAR_COMMENTS:
+        xdocs.append(t)
+        cases.append(ops_for(rng, t, 300, 300, xdl=True))
     # (b) mutations
     pool = docs + xdocs
     for i in range(1200 * N):
@@ -706,6 +785,23 @@ def extra(ctx):
             f = Failure("diverge", c, ["case"] + out, [], clause="chunk independence (implementation alone): " + cv, name="chunk_indep oracle")
             fails.append(f)
     ctx["stats"]["chunk_feeds_checked_on_impl_alone"] = checked
+    # comment transparency judged on the implementation alone: the text with comments must decode to what the text without them decodes to
+    pairs = [gen_comment_pair(rng) for _ in range(1500)]
+    plines = []
+    for w, wo in pairs:
+        plines += ["xdec " + hexs(w), "xdec " + hexs(wo)]
+    pout, pcrash, perr = core.run_impl(ctx["exe"], plines, timeout=600)
+    bad = 0
+    for i in range(0, min(len(pout), len(plines)) - 1, 2):
+        if pout[i] != pout[i + 1]:
+            bad += 1
+            if len(fails) < 3:
+                fails.append(Failure("diverge", plines[i:i + 2], pout[i:i + 2], [], clause="comment transparency (implementation alone): with comments %s, without %s"
+                                     % (pout[i][:80], pout[i + 1][:80]), name="comment_transparent oracle"))
+    if pcrash and len(fails) < 3:
+        fails.append(Failure("crash", plines[:2], [], [], crash=pcrash, clause="memory error while decoding commented texts: %s" % pcrash, name="comment_transparent oracle"))
+    ctx["stats"]["comment_pairs_checked_on_impl_alone"] = min(len(pout), len(plines)) // 2
+    ctx["stats"]["comment_pairs_valid"] = sum(1 for i in range(0, min(len(pout), len(plines)) - 1, 2) if pout[i] != "none")
     return fails
 
 
@@ -780,7 +876,11 @@ LEVEL_TEXT = ("Proved in Lean 4, for ALL byte strings / chunkings / documents, a
               "ones give the double of atof on the lexeme, which is exactly +-n below 2^53, +-(n rounded to the nearest multiple of its binary64 spacing, "
               "ties to even) from 2^53 to 2^1024, +-infinity above; so the sign is the literal's sign and 9223372036854775808 is 2^63); prefix_reject (every text that stops before the final closing "
               "byte of a top-level array, object or string is rejected, wherever the cut falls; via a frame lemma: a run that does not fault "
-              "is unchanged by contexts added below the stack). The model is tied to the code on every run by the "
+              "is unchanged by contexts added below the stack); block_comment_transparent / line_comment_transparent / rfc_accept_after_comment (XDL comments: a "
+              "block comment /* b */ with b in the grammar XdlCmt.BlockBody - a byte other than '*', or '*' together with the byte after it unless that byte is '/' - "
+              "met after any prefix that leaves the parser outside comments and outside the states STRING/QPROPERTY/ESCAPE, also in the middle of a number or "
+              "name, decodes like the text without it; a line comment //...LF|CR decodes like its LF|CR alone; tied by K on texts of exactly that grammar and, on "
+              "the real library alone, by comparing the decode of 1500 commented texts with the decode of the uncommented ones on every run). The model is tied to the code on every run by the "
               "correspondence check under ASan/UBSan (whole decodes, chunked feeding, prefixes; grammar-generated JSON/XDL, mutations, raw bytes) "
               "and python3 json adjudicates every RFC 8259 document and prefix generated.")
 LEVEL_NOTE = ("All four planned theorem groups are proved in full (no _partial). rfc_accept and prefix_reject carry the hypothesis nesting <= 1000 "
@@ -790,8 +890,10 @@ LEVEL_NOTE = ("All four planned theorem groups are proved in full (no _partial).
               "(general correct rounding of Strtod.roundRatio is not formalised). "
               "myatoiz itself (src/String.cpp, y = 10*y + (c-'0')) is transcribed by hand in AslModel.Xdl.myatoiz: translate() only checks that state INT calls "
               "myatoiz, so a change of its body is visible to K only. "
-              "XDL-only syntax (bare identifiers, class names, comments, newline separators) has no independent grammar: covered by "
-              "parse_safe/chunk_indep and K only. Hypotheses carried by K rather than proved: glibc atof = correctly rounded (AslModel/Strtod.lean), "
+              "XDL-only syntax: comments now have a grammar and transparency theorems (block_comment_transparent, line_comment_transparent); unquoted names, "
+              "Class{...}, Y/N are proved only for encoder output (C05 xdl_decode_encode*); free-form XDL separators (newline instead of comma, '=' vs ':') have "
+              "no independent grammar: parse_safe/chunk_indep and K only. The filter closes a block comment only at a '*/' whose '*' is not the second byte "
+              "of a '*x' unit: /***/ and /** a **/ stay open (document rejected); outside the property text, recorded in known_findings.txt. Hypotheses carried by K rather than proved: glibc atof = correctly rounded (AslModel/Strtod.lean), "
               "strtoul on the 4-byte \\u accumulator, C locale, Var/String/Array container semantics (C01-C04). "
               "Fixed in /repo while building this check: 88049f3 ('/' in quoted keys), c9789c6 (stack overflow in ~Var on 300000-deep nesting; "
               "decoder now rejects nesting > 1000). Known non-conformances outside the property as worded (documented, K-modelled): "
